@@ -1,7 +1,7 @@
 (* Calendar.get_used_tzids / get_missing_tzids / timezones / Timezone.tz_name /
    add_missing_timezones over the tree model.  Sets are duplicate-free lists; the iteration order
    of a Python set is an explicit parameter.  Definitions only. *)
-Require Import Lib.Base Lib.Chain Gen.Gen_parser Gen.Gen_cal Model.Text Model.Params Model.Contentline Model.Tree.
+Require Import Lib.Base Lib.Chain Gen.Gen_parser Gen.Gen_cal Model.Text Model.Params Model.Contentline Model.Sort Model.Tree.
 From Coq Require Import String.
 Local Open Scope string_scope.
 
@@ -55,6 +55,10 @@ Definition add_missing (gen : list N -> option comp) (order : list (list N) -> l
   bind (missing_set c) (fun ms =>
   let '(Comp n ps subs es) := c in
   Ok (Comp n ps (subs ++ flat_map (fun z => match gen z with Some tz => [tz] | None => [] end) (order ms)) es)).
+
+(* the call as the code now makes it: for tzid in sorted(missing) *)
+Definition add_missing_sorted (gen : list N -> option comp) (c : comp) : res comp :=
+  add_missing gen (sort_by str_leb) c.
 
 (* the specification side: all TZID parameters of all values of all nested components *)
 Definition comp_tzids (c : comp) : list pval :=
